@@ -30,13 +30,13 @@ INFO = {
                    "the pseudoscalar); the regressive filter is equivalent for every bit width to kx|ky = pss with "
                    "key-out kx&ky; and codegen_rp equals unhodge(hodge(a) ^ hodge(b)) term by term on representative "
                    "operands, including a degenerate metric.",
-    "decided": ["C05.dual-table", "C05.polarity", "C05.hodge", "C05.rp-filter", "C05.rp-table"],
+    "decided": ["C05.dual-table", "C05.counts-follow-signature", "C05.polarity", "C05.hodge", "C05.rp-filter", "C05.rp-table"],
     "not_decided": ["values of the sign table (C01)"],
     "assumptions": ["pss^-1 = pss / (pss*pss) when pss*pss is +-1", "C01, C02, C03"],
 }
 
 
-@rule("C05.dual-table", props=["C05", "C11"], min_instances=48, mutants=[
+@rule("C05.dual-table", props=["C05", "C11", "C10"], min_instances=48, mutants=[
     ("auto with r == 1 selects polarity", ("multivector", "        elif kind == 'hodge' or kind == 'auto' and self.algebra.r == 1:\n            return self.hodge()", "        elif kind == 'hodge' or kind == 'auto' and self.algebra.r == 2:\n            return self.hodge()")),
     ("undual('hodge') applies hodge", ("multivector", "            return self.unhodge()", "            return self.hodge()")),
     ("recorder undual auto r==1 -> unpolarity", ("taperecorder", "            return self.unhodge()", "            return self.unpolarity()")),
@@ -46,6 +46,40 @@ def dual_table(ctx):
     """dual()/undual() kind selection over kind x r, on both classes (DT)."""
     for which in ("dual", "undual"):
         dual_tables(ctx, ctx.repo, which)
+
+
+@rule("C05.counts-follow-signature", props=["C05", "C14", "C01", "C18"], min_instances=4, mutants=[
+    ("p, q, r given to the constructor win over the signature", ("algebra", "            counts = Counter(self.signature)\n            self.p, self.q, self.r = counts[1], counts[-1], counts[0]", "            if not (self.p or self.q or self.r):\n                counts = Counter(self.signature)\n                self.p, self.q, self.r = counts[1], counts[-1], counts[0]")),
+    ("null generators are counted as positive", ("algebra", "self.p, self.q, self.r = counts[1], counts[-1], counts[0]", "self.p, self.q, self.r = counts[1] + counts[0], counts[-1], 0")),
+])
+def counts_follow_signature(ctx):
+    """dual() / undual() choose polarity or Hodge duality by `algebra.r` while every sign follows `algebra.signature`:
+    when a signature is given, p, q, r (and d) are the counts of THAT signature - also when stale counts arrive with
+    it, as in dataclasses.replace(alg, signature=...), which hands every init field of the old algebra back to the
+    constructor."""
+    from .c01 import build_algebra
+    from ..absint import Raised
+    fn = ctx.func("algebra.Algebra.__post_init__")
+    cells = [((0, 0, 0), [0, 1, 1]), ((3, 0, 0), [0, 1, 1]), ((2, 0, 1), [1, 1, -1]), ((1, 1, 0), [-1, -1]),
+             ((0, 0, 0), [1, -1, 0, 0])]
+    for (p, q, r), sig in cells:
+        c = f"algebra.Algebra.__post_init__#p,q,r={p},{q},{r} with signature={sig}"
+        try:
+            it, alg = build_algebra(ctx.repo, p=p, q=q, r=r, signature=list(sig))
+        except NoValue as exc:
+            raise Unknown(c, str(exc), fn)
+        except Raised as exc:
+            ctx.violation(c, f"constructing the algebra raises {exc.name}", fn)
+            continue
+        want = (sig.count(1), sig.count(-1), sig.count(0))
+        got = tuple(alg.attrs.get(x) for x in "pqr")
+        if any(isinstance(g, Unk) for g in got) or isinstance(alg.attrs.get("d"), Unk):
+            raise Unknown(c, f"p, q, r = {got!r}", fn)
+        if got != want or alg.attrs.get("d") != len(sig):
+            ctx.violation(c, f"the algebra with signature {sig} has p, q, r = {got}, d = {alg.attrs.get('d')!r}; the signature has "
+                             f"{want[0]} positive, {want[1]} negative and {want[2]} null generators, and dual() / undual() decide by r", fn)
+        else:
+            ctx.ok(c, fn, pqr=str(got))
 
 
 @rule("C05.polarity", props=["C05", "C14"], min_instances=4, mutants=[
